@@ -652,7 +652,10 @@ def check_factory(case):
     return e
 
   try:
-    a, b, c = make()(), make()(), by_hand()
+    # the same factory object called twice (what a repeated benchmark does):
+    # the second product starts afresh, like the first
+    f1 = make()
+    a, b, c = f1(), f1(), by_hand()
   except Exception as e:  # pylint: disable=broad-except
     out.violate('raises/construct/factory/%s@%s' % (
         M.exc_key(e), M.exc_site(e)), traceback.format_exc()[-1200:])
